@@ -788,6 +788,22 @@ func (g *gen) annotateMap(f, val *descriptorpb.FieldDescriptorProto) {
 		if g.chance(50) {
 			mr.Values = g.validateFor(val, g.wild())
 		}
+		if g.chance(45) {
+			// constraints on the KEYS of the map
+			sr := &validate.StringRules{}
+			switch g.r.Intn(4) {
+			case 0:
+				sr.Pattern = proto.String("^[a-z]+$")
+			case 1:
+				sr.MinLen, sr.MaxLen = proto.Uint64(1), proto.Uint64(uint64(g.r.Range(2, 40)))
+			case 2:
+				sr.WellKnown = &validate.StringRules_Uuid{Uuid: true}
+			case 3:
+				sr.MaxLen = proto.Uint64(uint64(g.r.Range(1, 64)))
+			}
+			mr.Keys = &validate.FieldConstraints{Type: &validate.FieldConstraints_String_{String_: sr}}
+			g.tag("validate-map-keys")
+		}
 		fc.Type = &validate.FieldConstraints_Map{Map: mr}
 		if g.wild() {
 			fc = g.validateFor(val, true) // not a map constraint at all
